@@ -813,7 +813,8 @@ def multi_range(S, d):
         return None, None
     if d["kind"] == "data_row" and S.srows:
         return S.srows[d["a"] % len(S.srows)]
-    cand = S.cand_grid() if d["level"] == "grid" else S.cand_ns()
+    # (a `data_row` request on a run without rows falls back to grid candidates: its views may use seconds_range)
+    cand = S.cand_grid() if d["level"] == "grid" or d["kind"] == "data_row" else S.cand_ns()
     i, j = sorted((d["a"] % len(cand), d["b"] % len(cand)))
     return cand[i], cand[j]
 
@@ -1005,7 +1006,7 @@ def run_unsaved(d):
         if saved_now:
             classes.add("control_full_request_saves")
         nt = saved_now
-    return dict(nt=nt, classes=sorted(classes))
+    return dict(nt=nt, classes=sorted(classes), inner_evaluations=2, inner_nontrivial=2 if nt else 0)
 
 
 SUBCHECKS = [
